@@ -19,7 +19,7 @@ from vlib.mc import enum as E
 PROPERTY = 'C20'
 LEVEL = 'fault_enumeration'
 ENGINE = 'C'
-TECHNIQUE = ('bounded-exhaustive enumeration of sizes x chunk sizes x algorithms '
+TECHNIQUE = ('stateless bounded model checking: complete enumeration of sizes x chunk sizes x algorithms '
              'against whole-file semantics, and exhaustive errno injection at '
              'every call site (os.makedirs, remove callable)')
 LEVEL_TEXT = ('Every file size in {0, 1, c-1, c, c+1, 2c-1, 2c, 2c+1, 3c} for '
